@@ -88,6 +88,7 @@ PROPS["C17"] = dict(
         R("C17.key_roundtrip", "codec", "TestC17KeyRoundTrip", 30000, 2400000),
         R("C17.wire_independence", "codec", "TestC17WireIndependence", 15000, 1200000),
         R("C17.peerid_text", "codec", "TestC17PeerIDText", 40000, 2400000),
+        R("C17.swarm_identity", "secure", "TestC17SwarmIdentity", 300, 15000),
         F("C17.fuzz_key_parse", "codec", "FuzzKeyParse", 90),
         F("C17.fuzz_peerid_text", "codec", "FuzzPeerIDText", 90),
     ],
@@ -146,6 +147,7 @@ PROPS["C02"] = dict(
         R("C02.channel_rotation", "kechan", "TestC02ChannelRotation", 16, 1200, shrink=5, quick=dict(checks=16, shards=4, timeout=600)),
         R("C02.concurrent_send", "kechan", "TestC02ConcurrentSend", 40, 3000, shrink=5, quick=dict(checks=40, shards=2, timeout=600)),
         R("C02.swarm_burst", "swarms", "TestC02SwarmBurst", 120, 12000, quick=dict(shards=2, timeout=600)),
+        R("C02.concurrent_duplicate_deliveries", "kechan", "TestC02ConcurrentDuplicates", 120, 6000, quick=dict(shards=4, timeout=600)),
     ],
 )
 
@@ -158,6 +160,7 @@ PROPS["C05"] = dict(
     assumptions=["a 300 ms observation window (60 handshake retransmission intervals) stands for 'never' in negative outcomes"],
     subs=[
         R("C05.accept_and_continuity", "kechan", "TestC05AcceptAndContinuity", 240, 8000, shrink=6, qto=600, tto=3000, shards=8, quick=dict(checks=240, shards=6, timeout=600)),
+        R("C05.swarm_wrong_identity", "secure", "TestC05SwarmIdentity", 120, 5000, shrink=10, quick=dict(shards=4, timeout=900)),
     ],
 )
 
@@ -174,6 +177,7 @@ PROPS["C07"] = dict(
         R("C07.rekey_flow", "kechan", "TestC07RekeyFlow", 12, 800, shrink=5, quick=dict(checks=12, shards=4, timeout=600)),
         R("C07.no_idle_teardown", "kechan", "TestC07NoIdleTeardown", 8, 600, shrink=5, quick=dict(checks=8, shards=4, timeout=600)),
         R("C07.late_duplicates_then_idle", "kechan", "TestC07LateDuplicates", 48, 4000, shrink=5, quick=dict(shards=4, timeout=600)),
+        R("C07.outage_beyond_reject_after", "kechan", "TestC07OutageBeyondReject", 40, 1500, shrink=5, quick=dict(shards=4, timeout=600)),
     ],
 )
 
@@ -202,6 +206,7 @@ PROPS["C09"] = dict(
     subs=[
         R("C09.mtu_honest", "swarms", "TestC09MTU", 400, 40000, shrink=10, quick=dict(checks=400, shards=4, timeout=600)),
         R("C09.mux_several_channels", "swarms", "TestC09MuxChannels", 200, 25000, shrink=10),
+        R("C09.ssh_boundary", "swarms", "TestC09SSH", 80, 4000),
     ],
 )
 
@@ -267,6 +272,7 @@ PROPS["C11"] = dict(
     subs=[
         R("C11.mem_stacks", "swarms", "TestC11Mem", 240, 10000, shrink=10, quick=dict(checks=240, shards=4, timeout=600)),
         R("C11.mbapp_reply_origin", "swarms", "TestC11MbappReplyOrigin", 200, 10000, shrink=10),
+        R("C11.mux_channels", "swarms", "TestC11MuxChannels", 300, 15000, quick=dict(shards=2, timeout=600)),
         R("C11.quic_ssh_stacks", "swarms", "TestC11Net", 32, 1200, shrink=10, quick=dict(checks=32, shards=4, timeout=600)),
     ],
 )
@@ -296,6 +302,7 @@ PROPS["C13"] = dict(
         R("C13.askhub_histories", "hubs", "TestC13AskHub", 600, 120000),
         R("C13.queue_histories", "hubs", "TestC13Queue", 400, 80000),
         R("C13.queue_stampede", "hubs", "TestC13QueueStampede", 100, 12000),
+        R("C13.ask_cancel", "hubs", "TestC13AskCancel", 300, 12000),
         R("C13.swarm_cancel", "hubs", "TestC13SwarmCancel", 120, 12000, quick=dict(checks=120, shards=4, timeout=600)),
     ],
 )
@@ -311,7 +318,9 @@ PROPS["C14"] = dict(
         R("C14.contention_workloads", "swarms", "TestC14Stress", 72, 1200, race=True, shrink=5, quick=dict(checks=72, shards=6, timeout=900)),
         R("C14.channel_close_during_callback", "swarms", "TestC14ChannelClose", 24, 800, race=True, shrink=5, quick=dict(checks=24, shards=4, timeout=900)),
         R("C14.kademlia_concurrent", "kad", "TestC14Cache", 10, 300, race=True, shrink=5),
+        R("C14.ssh_concurrent", "swarms", "TestC14SSH", 24, 800, race=True, quick=dict(shards=2, timeout=600)),
         R("C14.recycled_buffer_exposure", "swarms", "TestC14BufferReuse", 150, 8000),
+        R("C14.ask_buffer_after_return", "swarms", "TestC14AskBufferAfterReturn", 12, 400, quick=dict(shards=2, timeout=600)),
     ],
 )
 
